@@ -228,8 +228,14 @@ def run(tier):
     stats = {"drift": {}}
     # 1. the document space, with the specification's theorems checked on every document
     cfg = "EditsGenQuick.cfg" if tier == "quick" else "EditsGenThorough.cfg"
-    cov = tlc("EditsGen", "EditsGenTiny.cfg", workers=4, timeout=600, coverage=True, tag="c16cov")
+    # (-coverage on the full set of theorems does not terminate: TLC's cost model inlines every operator
+    # application; the coverage run therefore carries the ReadsBack theorem only)
+    cov = tlc("EditsGen", "EditsGenCov.cfg", workers=4, timeout=600, coverage=True, tag="c16cov")
     tlc_must_pass(cov, "EditsGen (coverage run)")
+    import re
+    taken = [int(m.group(1)) for m in re.finditer(r"^<Next line .*?>: (\d+):\d+", cov.out, re.M)]
+    if len(taken) < 2 or taken[0] == 0 or taken[1] == 0:
+        tool_failure(f"vacuity: an action of EditsGen was never taken: {taken}")
     gen = tlc("EditsGen", cfg, workers=8, timeout=2400, xmx="12g", tag="c16gen")
     tlc_must_pass(gen, "EditsGen: theorems of Edits.tla over the document space")
     cases = behaviours_from(gen, "CASE")
